@@ -24,6 +24,12 @@ def run(pid, path):
         for _id, evs in paircheck.replay_pair(rp["script"], wd).items():
             for ev in evs:
                 print(json.dumps(ev))
+    elif rp.get("kind") == "tcpx_script":
+        import tcpxcheck
+        wd = workdir("replay")
+        for _id, evs in tcpxcheck.replay_tcpx(rp["script"], wd).items():
+            for ev in evs:
+                print(json.dumps(ev))
     elif rp.get("kind") == "tcp_script":
         import tcpcheck
         tcpcheck.replay(rp)
